@@ -30,7 +30,7 @@ type sysRun struct {
 	InvViolated string // design invariant of System.tla that failed on a state reached by following this run
 }
 
-func tlaBool(b bool) string { return strings.ToUpper(strconv.FormatBool(b)) }
+func tlaB(b bool) string { return strings.ToUpper(strconv.FormatBool(b)) }
 
 func tlaSetOf(xs []string) string {
 	q := make([]string, len(xs))
@@ -56,8 +56,8 @@ func sysModulePeek(mode string, cfg sys.Config, maxRPC, maxStims int, kinds []st
 		"StimKinds":   tlaSetOf(kinds),
 	}, map[string]string{
 		"MaxRPC": strconv.Itoa(maxRPC), "MaxStims": strconv.Itoa(maxStims),
-		"Small": tlaBool(cfg.Small), "Manual": tlaBool(cfg.Manual), "Soft": tlaBool(cfg.Soft),
-		"GateU": tlaBool(cfg.GateU), "Gen": tlaBool(mode == "gen"),
+		"Small": tlaB(cfg.Small), "Manual": tlaB(cfg.Manual), "Soft": tlaB(cfg.Soft),
+		"GateU": tlaB(cfg.GateU), "Gen": tlaB(mode == "gen"),
 	})
 	if mode == "trace" {
 		consts += " PeekLine = " + strconv.Itoa(peekLine) + "\n"
